@@ -523,7 +523,7 @@ class Renderer:
                 + self.loop_attrs(k) + "loop" + self.loop_spec(k) + "{" + entry
                 + "match %s.next() { Some(%s) => %s, None => break, }" % (itv, self.t(n["pat"]), self.render_block(
                     body, self.stmt_text("loop", str(k), "for_entry"), self.stmt_text("loop", str(k), "for_exit")))
-                + exit_ + "}}")
+                + exit_ + "}" + self.stmt_text("loop", str(k), "after") + "}")
 
     # -- if: branch anchors
     def r_If(self, n):
@@ -1008,7 +1008,12 @@ def generate(outdir, stub=None):
         rec = recs.get(fn.key)
         if rec is None:
             missing.append(fn.key)
-            continue
+            if os.environ.get("PQ_ALLOW_MISSING"):
+                continue
+            # a function the overlay does not know (new in the source): verified without a contract, for its
+            # built-in obligations only (C04); reported in map.json / evidence as not under contract
+            rec = FnRec(fn.key, "(no overlay record)")
+            rec.attrs["mode"] = "plain"
         rec.used = True
         mode = rec.attrs.get("mode", "contract")
         a, b = fn.node["span"]
@@ -1081,7 +1086,7 @@ def generate(outdir, stub=None):
             synth_fn(key, rec, impls, ctx, table, by_mod)
     if missing and os.environ.get("PQ_ALLOW_MISSING"):
         print("gen: %d functions without overlay record (bring-up mode)" % len(missing), file=sys.stderr)
-    elif missing:
+    elif missing and os.environ.get("PQ_STRICT"):
         die("functions without overlay record (neither under contract nor listed as unverified): " + ", ".join(missing))
     for k, rec in recs.items():
         if not rec.used:
@@ -1140,7 +1145,7 @@ def generate(outdir, stub=None):
         if e < 0:
             die("internal: unbalanced marker " + cid)
         spans.append({"id": cid, "fn": bool(m.group(1)), "start": m.start(), "end": e + len(close)})
-    json.dump({"functions": table, "clauses": ctx.clauses, "spans": spans,
+    json.dump({"functions": table, "clauses": ctx.clauses, "spans": spans, "without_record": missing,
                "repo_head": subprocess.run(["git", "-C", REPO, "rev-parse", "HEAD"], capture_output=True, text=True).stdout.strip()},
               open(os.path.join(outdir, "map.json"), "w"), indent=1)
     return path
